@@ -3,13 +3,14 @@
 import subprocess, os, sys, json, time, re
 WT=os.environ.get('REF_WT', '/tmp/wt_ref')       # scratch worktree of /repo; patches are read from seeded/refactorings
 HOME=os.environ.get('VERIF_HOME','/verif')
-scr='/tmp/scr_wt_ref'
+scr='/tmp/scr_' + os.path.basename(WT)
 os.makedirs(scr, exist_ok=True)
 for d in ('mir-target','replay-target','kani-target'):
     if not os.path.isdir(scr+'/'+d) and os.path.isdir('/verif/.scratch/'+d):
         subprocess.run('cp -r /verif/.scratch/%s %s/' % (d, scr), shell=True)
 env=dict(os.environ, VERIF_REPO=WT, VERIF_SCRATCH=scr, VERIF_OUT=scr)
-PLAN={1:['C18','C14'],2:['C12','C11','C05'],3:['C12'],4:['C18','C08'],5:['C06','C03','C02'],6:['C04','C10','C18'],7:['C02','C07','C04'],8:['C18'],9:['C08','C07','C14'],10:['C15','C03','C02'],11:['C01'],12:['C20'],13:['C19'],14:['C09']}
+PLAN={15:['C08','C02','C09','C07'],16:['C06','C03'],17:['C04','C10'],18:['C18','C14'],19:['C05','C11','C12'],20:['C08','C02','C14'],21:['C08'],22:['C14','C04'],23:['C02','C07','C03','C06'],24:['C10','C04'],25:['C08','C07'],26:['C03','C15','C02'],27:['C01'],28:['C03'],29:['C14'],30:['C09'],
+      1:['C18','C14'],2:['C12','C11','C05'],3:['C12'],4:['C18','C08'],5:['C06','C03','C02'],6:['C04','C10','C18'],7:['C02','C07','C04'],8:['C18'],9:['C08','C07','C14'],10:['C15','C03','C02'],11:['C01'],12:['C20'],13:['C19'],14:['C09']}
 want=[int(x) for x in sys.argv[1:]] or sorted(PLAN)
 out={}
 for k in want:
